@@ -1125,9 +1125,9 @@ theorem opEvictFire_now (cfg : Cfg) (w : W) (k : Key) (g : Nat) : (opEvictFire c
       · rfl
 
 /-- `removeWithPrefix` (a `remove` per key, each possibly followed by an inline compaction), crashed anywhere -/
-theorem crash_removeWithPrefix (cfg : Cfg) (w : W) (hi : MemInv w.mem) (hf : FInv cfg w) (htr : w.tr = []) (p : Bytes)
+theorem crash_removeWithPrefix (cfg : Cfg) (w : W) (hi : MemInv w.mem) (hf : FInv cfg w) (htr : w.tr = []) (p : Bytes) (ord : List Key)
     (hc : w.mem.kv.length ≤ cfg.lim.snapCountMax) :
-    CrashAdm cfg w.now w.fs (opRemoveWithPrefix cfg w p).1.tr w.mem.look (opRemoveWithPrefix cfg w p).1.mem.look := by
+    CrashAdm cfg w.now w.fs (opRemoveWithPrefix cfg w p ord).1.tr w.mem.look (opRemoveWithPrefix cfg w p ord).1.mem.look := by
   unfold opRemoveWithPrefix
   simp only
   have h := crash_fold cfg (opRemove cfg) (opRemove_loc cfg) (fun _ _ => True)
@@ -1137,13 +1137,13 @@ theorem crash_removeWithPrefix (cfg : Cfg) (w : W) (hi : MemInv w.mem) (hf : FIn
     (fun w x hq _ htr' => ⟨⟨(remove_ok cfg w hq.1 x).1, FInv.remove cfg w hq.2.1 x hq.2.2,
         Nat.le_trans (opRemove_kv_length cfg w x) hq.2.2⟩, opRemove_now cfg w x, opRemove_faithful cfg w htr' x,
         crash_remove cfg w hq.2.1 htr' x hq.2.2⟩)
-    w.mem.look ((keysWithPrefix w.mem w.now p).foldl (opRemove cfg) w).mem.look (keysWithPrefix w.mem w.now p)
+    w.mem.look ((prefixOrder w.mem w.now p ord).foldl (opRemove cfg) w).mem.look (prefixOrder w.mem w.now p ord)
     w ⟨hi, hf, hc⟩ htr (fun _ _ _ _ => trivial)
   refine (h ?_).1
   -- along the way every key shows its old entry or its final one
   intro pre post he k
   obtain ⟨_, habs1⟩ := removeFold_ok cfg pre w hi
-  obtain ⟨_, habs2⟩ := removeFold_ok cfg (keysWithPrefix w.mem w.now p) w hi
+  obtain ⟨_, habs2⟩ := removeFold_ok cfg (prefixOrder w.mem w.now p ord) w hi
   have e1 := congrArg (fun s => s.m k) habs1
   have e2 := congrArg (fun s => s.m k) habs2
   have n1 := congrArg (fun s => s.now) habs1
@@ -1151,7 +1151,7 @@ theorem crash_removeWithPrefix (cfg : Cfg) (w : W) (hi : MemInv w.mem) (hf : FIn
   simp only [W.abs] at e1 e2 n1 n2
   by_cases hk : k ∈ pre
   · right
-    have hk2 : k ∈ keysWithPrefix w.mem w.now p := by rw [he]; exact List.mem_append_left _ hk
+    have hk2 : k ∈ prefixOrder w.mem w.now p ord := by rw [he]; exact List.mem_append_left _ hk
     rw [Eqv_iff]
     rw [n1] at e1
     rw [n2] at e2
@@ -1225,7 +1225,7 @@ theorem crash_step (cfg : Cfg) (hl : cfg.lim.OK) (w : W) (hi : Inv cfg w) (op : 
   | setBatchTtl kvs ttl => exact crash_setBatchTtl cfg hl _ hf him hi.cacheOff rfl kvs ttl hd hc
   | get k => exact crash_get cfg _ hf rfl k
   | remove k => exact crash_remove cfg _ hf rfl k (by simp only [Op.adds] at hc; exact hc)
-  | removeWithPrefix p => exact crash_removeWithPrefix cfg _ him hf rfl p (by simp only [Op.adds] at hc; exact hc)
+  | removeWithPrefix p ord => exact crash_removeWithPrefix cfg _ him hf rfl p ord (by simp only [Op.adds] at hc; exact hc)
   | clear => exact crash_clear cfg _ hf rfl
   | expireAt k t => exact crash_expireAt cfg hl _ hf rfl k t ht
   | persist k => exact crash_persist cfg _ hf rfl k
